@@ -13,7 +13,7 @@ use crate::entries::Entry;
 use crate::models::fault::{Fault, Faulty};
 use crate::models::valve::EngineSel;
 use crate::props::c10::state_for_entry;
-use crate::realnet::{closed_tcp_port, RealServer};
+use crate::realnet::{refusing_tcp_port, RealServer};
 use crate::runner::{Outcome, Prop, Tier};
 use crate::wire::{Outbox, Responder};
 
@@ -492,6 +492,7 @@ impl Prop for C12 {
                 let mut _stalled = None;
                 let mut _plain = None;
                 let mut _thread: Option<(std::sync::Arc<std::sync::atomic::AtomicBool>, std::thread::JoinHandle<()>)> = None;
+                let mut _held: Option<crate::realnet::HeldPort> = None;
                 let addr: SocketAddr = match *kind {
                     0 => match stalled_listener(ip) {
                         Some(s) => {
@@ -547,8 +548,12 @@ impl Prop for C12 {
                             return o;
                         }
                     },
-                    _ => match closed_tcp_port(ip) {
-                        Some(p) => SocketAddr::new(ip, p),
+                    _ => match refusing_tcp_port(ip) {
+                        Some(p) => {
+                            let a = SocketAddr::new(ip, p.port);
+                            _held = Some(p);
+                            a
+                        }
                         None => {
                             skip(&mut o, "loopback address cannot be bound".into());
                             return o;
@@ -615,9 +620,14 @@ impl Prop for C12 {
                     }
                 });
                 let server;
+                let _held;
                 let port = if *fault == FaultPoint::Refused {
-                    match closed_tcp_port(ip) {
-                        Some(p) => p,
+                    match refusing_tcp_port(ip) {
+                        Some(p) => {
+                            let port = p.port;
+                            _held = p;
+                            port
+                        }
                         None => {
                             o.excluded = Some("loopback address cannot be bound".into());
                             o.nontrivial = false;
